@@ -1,5 +1,7 @@
 import RCE.Model.Attacks
 import RCE.Spec.Rules
+import RCE.Proofs.SliderAll
+import RCE.Proofs.LeaperChk
 /-! Helper definitions and lemmas for C06. -/
 namespace RCE.Proofs.Sliders
 open RCE
@@ -30,19 +32,18 @@ theorem forall_lt_of_all {p : Nat → Bool} {n : Nat} (h : (List.range n).all p 
   rw [List.all_eq_true] at h
   exact h i (List.mem_range.mpr hi)
 
-set_option maxRecDepth 100000 in
-theorem knight_all : (List.range 64).all (fun sq => exactB (knightAttacks sq) (Rules.knightOff.filterMap fun d => Rules.step sq d.1 d.2)) = true := by
-  decide +kernel
+-- (kernel-evaluated in `LeaperChk`, a module lake builds in parallel with the slider checks; `exactB` and
+--  `LeaperChk.exactB'` have the same body)
+theorem knight_all : (List.range 64).all (fun sq => exactB (knightAttacks sq) (Rules.knightOff.filterMap fun d => Rules.step sq d.1 d.2)) = true :=
+  LeaperChk.knight_all
 
-set_option maxRecDepth 100000 in
-theorem king_all : (List.range 64).all (fun sq => exactB (kingAttacks sq) (Rules.kingOff.filterMap fun d => Rules.step sq d.1 d.2)) = true := by
-  decide +kernel
+theorem king_all : (List.range 64).all (fun sq => exactB (kingAttacks sq) (Rules.kingOff.filterMap fun d => Rules.step sq d.1 d.2)) = true :=
+  LeaperChk.king_all
 
-set_option maxRecDepth 100000 in
 theorem pawn_all : [true, false].all (fun white => (List.range 64).all (fun sq => exactB (pawnAttacks white sq)
     ([(1, Rules.pawnDir (if white then .white else .black)), (-1, Rules.pawnDir (if white then .white else .black))].filterMap
-        fun d => Rules.step sq d.1 d.2))) = true := by
-  decide +kernel
+        fun d => Rules.step sq d.1 d.2))) = true :=
+  LeaperChk.pawn_all
 
 theorem knight_exact (sq : Nat) (h : sq < 64) :
     Exact (knightAttacks sq) (Rules.knightOff.filterMap fun d => Rules.step sq d.1 d.2) :=
@@ -61,5 +62,49 @@ theorem pawn_exact (white : Bool) (sq : Nat) (h : sq < 64) :
   cases white
   · exact exact_of_exactB (forall_lt_of_all h0.2 sq h)
   · exact exact_of_exactB (forall_lt_of_all h0.1 sq h)
+
+/-! ### sliders: magic-table lookups are exact for every square and every occupancy
+
+The per-square facts are established by `SliderCheck.sliderOK` (kernel-evaluated in `SliderChk/G*.lean`);
+`SliderSound.sliderOK_sound` turns a successful check into the statement below. -/
+
+theorem rook_exact (sq : Nat) (occ : BB) (h : sq < 64) :
+    ∃ a, rookLookup? sq occ = some a ∧ Exact a (specSlider Rules.rookDirs sq occ) :=
+  SliderCheck.rook_of_ok sq h (SliderChk.rook_all sq h) occ
+
+theorem bishop_exact (sq : Nat) (occ : BB) (h : sq < 64) :
+    ∃ a, bishopLookup? sq occ = some a ∧ Exact a (specSlider Rules.bishopDirs sq occ) :=
+  SliderCheck.bishop_of_ok sq h (SliderChk.bishop_all sq h) occ
+
+/-- the magic lookup never panics and equals the slow ray walk on the masked occupancy -/
+theorem rook_lookup_eq (sq : Nat) (occ : BB) (h : sq < 64) :
+    rookLookup? sq occ = some (rookSlow sq (occ &&& rookMask sq)) :=
+  SliderCheck.rook_lookup_of_ok sq h (SliderChk.rook_all sq h) occ
+
+theorem bishop_lookup_eq (sq : Nat) (occ : BB) (h : sq < 64) :
+    bishopLookup? sq occ = some (bishopSlow sq (occ &&& bishopMask sq)) :=
+  SliderCheck.bishop_lookup_of_ok sq h (SliderChk.bishop_all sq h) occ
+
+/-- `rookSlow` / `bishopSlow` without the 512-entry ray array: a form the kernel evaluates quickly -/
+theorem rookSlow_fast (sq : Nat) (x : BB) :
+    rookSlow sq x = SliderCheck.slowFast sq (SliderCheck.rookCfg sq).D1 (SliderCheck.rookCfg sq).D2
+      (SliderCheck.rookCfg sq).D3 (SliderCheck.rookCfg sq).D4 x :=
+  SliderCheck.rookSlow_fast sq x
+
+theorem bishopSlow_fast (sq : Nat) (x : BB) :
+    bishopSlow sq x = SliderCheck.slowFast sq (SliderCheck.bishopCfg sq).D1 (SliderCheck.bishopCfg sq).D2
+      (SliderCheck.bishopCfg sq).D3 (SliderCheck.bishopCfg sq).D4 x :=
+  SliderCheck.bishopSlow_fast sq x
+
+theorem queen_exact (sq : Nat) (occ : BB) (h : sq < 64) :
+    Exact (queenAttacks sq occ) (specSlider (Rules.rookDirs ++ Rules.bishopDirs) sq occ) := by
+  obtain ⟨a, ha, hea⟩ := rook_exact sq occ h
+  obtain ⟨b, hb, heb⟩ := bishop_exact sq occ h
+  intro t ht
+  unfold queenAttacks rookAttacks bishopAttacks
+  rw [ha, hb]
+  simp only [Option.getD_some, specSlider, List.flatMap_append, List.mem_append]
+  rw [Bits.testBit_or _ _ _ ht, Bool.or_eq_true, hea t ht, heb t ht]
+  rfl
 
 end RCE.Proofs.Sliders
